@@ -243,6 +243,24 @@ def natural(d):
     return None
 
 
+_MEASURED = {}
+
+
+def content_width(kind, child, maxw):
+    """Width the child asks for when offered `maxw`: for plain text leaves the harness's own count (widest
+    unwrapped line), otherwise the child's *own* measurement (an input of the frame, decided by C09) --
+    never the measurement of the frame under test."""
+    nat = natural(child)
+    if nat is not None:
+        return max(0, min(nat, maxw))
+    key = (kind, json.dumps(child), maxw)
+    m = _MEASURED.get(key)
+    if m is None:
+        from rich.measure import Measurement
+        m = _MEASURED[key] = Measurement.get(console(kind), build(child), maxw).maximum
+    return m
+
+
 # ------------------------------------------------------------------ rendering into (text, per-char visible style) lines
 _VIS = {}
 
@@ -424,7 +442,6 @@ def check_panel(case, res):
         res.violate("panel/ragged", case, "line widths %r: %r" % (widths, [t for t, _ in lines]))
         return
     pw = widths[0]
-    nat = natural(child)
     if o["expand"]:
         if not vague and pw != avail:
             res.violate("panel/width-expand", case, "expanding panel is %d cells wide, available %d" % (pw, avail))
@@ -433,11 +450,11 @@ def check_panel(case, res):
         if pw > W or (not vague and pw > avail):
             res.violate("panel/fit-exceeds-available", case, "fitting panel is %d cells wide, available %d" % (pw, avail))
             return
-        if nat is not None and not vague:
-            m = min(nat, avail - 2 - pl - pr) + pl + pr
+        if not vague:
+            nat = content_width(kind, child, avail - 2 - pl - pr)
+            m = nat + pl + pr
             if title:
                 m = min(W - 2, max(m, tcells + 4))
-            sig.append("fitw")
             if pw != m + 2:
                 res.violate("panel/fit-width", case,
                             "fitting panel is %d cells wide; content %d + padding %d + border 2%s"
@@ -521,7 +538,6 @@ def check_padding(case, res):
         res.violate("padding/ragged", case, "line widths %r: %r" % (widths, [t for t, _ in lines]))
         return
     w = widths[0]
-    nat = natural(child)
     if expand:
         if w != W:
             res.violate("padding/width-expand", case, "expanding padding is %d cells wide, available %d" % (w, W))
@@ -530,9 +546,9 @@ def check_padding(case, res):
         if w > W:
             res.violate("padding/fit-exceeds-available", case, "%d cells wide, available %d" % (w, W))
             return
-        if nat is not None:
-            sig.append("fitw")
-            want = min(nat + pl + pr, W)
+        nat = content_width(kind, child, W)
+        want = min(nat + pl + pr, W)
+        if True:
             if w != want:
                 res.violate("padding/fit-width", case, "fitting padding is %d cells wide; content %d + padding %d, "
                             "available %d" % (w, nat, pl + pr, W))
@@ -592,7 +608,7 @@ def check_align(case, res):
     lines, ended = out
     svis = base.visible()
     limit = min(W, width) if width else W
-    nat = natural(child)
+    nat = content_width(kind, child, 200)      # Align measures against the console width
     if nat == 0:
         res.sig(("align", "empty-child"), nontrivial=False)
         return
@@ -602,10 +618,7 @@ def check_align(case, res):
     if not ended:
         res.violate("align/no-trailing-newline", case, "output %r" % [t for t, _ in lines])
         return
-    if nat is not None:
-        cands = [min(nat, limit)]
-    else:
-        cands = list(range(limit, cmin(child) - 1, -1))
+    cands = [min(nat, limit)]
     first = best = None
     for cwid in cands:
         cl, cended = child_alone(kind, child, cwid, style)
@@ -613,7 +626,7 @@ def check_align(case, res):
         hit = compare(lines, exp, "align")
         if hit is None:
             res.sig(("align", kind, align, pad, width is not None, style is not None, _nl(len(lines)),
-                     "exact" if W - bw <= 0 else "excess", nat is not None))
+                     "exact" if W - bw <= 0 else "excess", min(nat, limit) < limit))
             return
         same_content = [t.split() for t, _ in lines] == [e[0].split() for e in exp]
         if first is None:
@@ -1030,7 +1043,7 @@ def gen_panel(tier):
 
 def gen_padding(tier):
     for child in children_for(tier):
-        for pad in (1, [0, 2], [1, 0, 1, 3], [2, 1], [0, 0, 0, 0]):
+        for pad in (1, [0, 2], [1, 0, 1, 3], [2, 1, 0, 3], [0, 0, 0, 0]):
             for expand in (True, False):
                 for style in ("none", "on blue"):
                     d = ["padding", child, pad, expand, style]
@@ -1044,10 +1057,10 @@ def gen_align(tier):
     for child in children_for(tier):
         for align in ("left", "center", "right"):
             for pad in (True, False):
-                for width in (None, "rel"):
+                for width in (None, "rel", 30):
                     for style in (None, "on blue"):
                         smin = cmin(child)
-                        d = ["align", child, align, pad, (smin + 2) if width else None, style]
+                        d = ["align", child, align, pad, (smin + 2) if width == "rel" else width, style]
                         for kind in KINDS:
                             for W in widths_for(smin):
                                 yield {"fam": "align", "con": kind, "W": W, "desc": d}
@@ -1248,7 +1261,7 @@ def describe(tier, seed, res):
             "width oracle = vf/width.py; box, guide and substitution tables are hand written in vf/checks/c08.py",
             "struct_min is conservative: text = widest character, table 9, frame overhead added; a panel with a title needs >=4; "
             "a title that does not fit is only checked loosely; `width` smaller than title+6 is outside the statement",
-            "fit widths are judged exactly only for text leaves without tabs (natural width = widest unwrapped line)",
+            "the width a fitting frame gives its child = widest unwrapped line for text leaves (harness count); for tables, nested frames and tab text the child's own Measurement (decided by C09), never the frame's",
             "Align around an empty text (measured width 0) is outside the statement",
             "exact guide glyphs (fork/end/continue per level) are taken as part of 'guide prefix'",
         ],
